@@ -518,3 +518,36 @@ func ZZ_C03_block_lines() {
 	zzCompareTokens([]byte(body), 0, true)
 	zzCover("compared")
 }
+
+// ZZ_C03_lex_history: what a text lexes to does not depend on what was lexed
+// before in the same process: a first text (a string or block string whose
+// contents are arbitrary bytes after an escape, valid or not) is lexed and its
+// outcome discarded, then a second text of the structured shapes is lexed and
+// compared with the reference lexer.
+func ZZ_C03_lex_history() {
+	k1 := zzChoice("k1", zzParam("K1", 2)+1)
+	first := zzBytes("first", k1)
+	var body1 []byte
+	switch zzChoice("shape1", 3) {
+	case 0: // "ab\…"
+		body1 = append(append([]byte(`"ab\`), first...), '"')
+	case 1: // "ab\n…   (an escape, then arbitrary bytes, no closing quote)
+		body1 = append([]byte(`"ab\n`), first...)
+	case 2: // """a\…"""
+		body1 = append(append([]byte(`"""a\`), first...), []byte(`"""`)...)
+	}
+	readToken(&source.Source{Body: body1}, 0)
+	k := zzChoice("k", zzParam("K", 2)+1)
+	mid := zzBytes("mid", k)
+	var body []byte
+	switch zzChoice("shape", 3) {
+	case 0: // "x\ty…"
+		body = append(append([]byte(`"x\ty`), mid...), '"')
+	case 1: // "…"
+		body = append(append([]byte{'"'}, mid...), '"')
+	case 2: // """…\"""z"""
+		body = append(append([]byte(`"""`), mid...), []byte(`\"""z"""`)...)
+	}
+	zzCompareTokens(body, 0, true)
+	zzCover("compared")
+}
